@@ -168,6 +168,9 @@ func (w *World) ApplyModifierTwice(c *ContactState, mj gen.J, sa *SA) *ModCheck 
 		sib.After = snap()
 		sib.After2 = sib.After
 		mc.Sibling = sib
+		if NormContact(sib.After) != NormContact(mc.After) {
+			w.probe("modifier_second_clone_differs_from_first")
+		}
 		*w.Seams.Clock = end
 	})
 	return mc
